@@ -348,7 +348,7 @@ def gen_c09(seed, shipped, tier="quick"):
     worlds = []
     h0 = rng.choice([0, 1, rng.randrange(1 << 32)])
     pristine_ops = [["new", "s0"]] + [["scan", "s0", i, d] for i, d in keys] + [["cli", m, "stdin", i] for m, i in cli_keys]
-    worlds.append({"hashseed": h0, "enum_seed": 0, "io_seed": 0, "io": {"chunk": "full"}, "env": {"LC_ALL": None, "opt": ""}, "ops": pristine_ops})
+    worlds.append({"hashseed": h0, "enum_seed": 0, "io_seed": 0, "env_seed": 0, "io": {"chunk": "full"}, "env": {"LC_ALL": None, "opt": ""}, "ops": pristine_ops})
     for wi in range(1, nworlds):
         h = rng.choice([0, 1, 2, 3, rng.randrange(1 << 32), rng.randrange(1 << 32), h0])
         e = rng.choice([0, rng.randrange(1, 1 << 30), rng.randrange(1, 1 << 30), rng.randrange(1, 1 << 30)])
@@ -393,7 +393,7 @@ def gen_c09(seed, shipped, tier="quick"):
             i, d = rng.choice(keys)
             ops.append(["scan", "s0", i, d])
         worlds.append({
-            "hashseed": h, "enum_seed": e, "io_seed": rng.randrange(1 << 30), "io": io_knobs(rng),
+            "hashseed": h, "enum_seed": e, "io_seed": rng.randrange(1 << 30), "env_seed": rng.randrange(1, 1 << 30), "io": io_knobs(rng),
             "env": {"LC_ALL": rng.choice([None, "C", "C.UTF-8"]), "opt": rng.choice(["", "", "-O"])},
             "default_ctor": rng.random() < 0.5,
             "ops": ops,
@@ -433,7 +433,7 @@ def gen_c18(seed, shipped, tier="quick"):
     worlds = [{
         "hashseed": rng.choice([0, 1, rng.randrange(1 << 32)]),
         "enum_seed": rng.choice([0, rng.randrange(1, 1 << 30), rng.randrange(1, 1 << 30), rng.randrange(1, 1 << 30)]),
-        "io_seed": rng.randrange(1 << 30), "io": io_knobs(rng),
+        "io_seed": rng.randrange(1 << 30), "env_seed": rng.randrange(1 << 30), "io": io_knobs(rng),
         "env": {"LC_ALL": rng.choice([None, "C", "C.UTF-8"]), "opt": rng.choice(["", "", "-O"])},
         "ops": ops,
     }]
@@ -486,7 +486,7 @@ def gen_c20(seed, shipped, tier="quick", faults=None):
         runs.append(run)
     world = {"hashseed": rng.choice([0, 1, rng.randrange(1 << 32)]),
              "enum_seed": rng.choice([0, rng.randrange(1, 1 << 30), rng.randrange(1, 1 << 30)]),
-             "io_seed": rng.randrange(1 << 30), "io": io_knobs(rng),
+             "io_seed": rng.randrange(1 << 30), "env_seed": rng.randrange(1 << 30), "io": io_knobs(rng),
              "env": {"LC_ALL": rng.choice([None, "C", "C.UTF-8"]), "opt": rng.choice(["", "", "-O"])},
              "runs": runs}
     return {"property": "C20", "seed": seed, "family": "faults" if faults else "fault_free",
